@@ -9,7 +9,7 @@ CONFIG = {
     "trusted_base": [
         KERNEL, TRANSLATOR + " (ReflectGen.v: case arms of buildSchema / buildScalarType / wktSchema, type-switch arms of newFieldFactory / newMessageFieldFactory)", CORR, HARNESS,
         "abstract descriptor dump (harness/descgen/dump.go): protoreflect descriptors and option extension values -> Coq desc term; float32 bounds widened to float64 bits, list-rule / entity-ref payloads as opaque tokens (fnv of the deterministic encoding), descriptions computed with a copy of buildComment, strcase.ToLowerCamel of oneof names supplied as data",
-        "modelled, not verified: protodesc.NewFiles, protoreflect accessors, strcase.ToLowerCamel (supplied as data), the codec below newPropSet / buildProperty (encoder and decoder bodies belong to C01/C06/C08). The theorems carry explicit hypotheses (wf_total / wf_desc / wf_paths) that a linked descriptor set does NOT all guarantee: split names of messages / enums / real oneofs distinct (violated by `message Bar { enum Kind }` + `message Bar_Kind`), JSON names of fields AND exposed oneofs distinct (protoc checks fields only: violated by `oneof foo_bar {expose}` + field `fooBar`); both violations are proved refutations and known findings",
+        "modelled, not verified: protodesc.NewFiles, protoreflect accessors, strcase.ToLowerCamel (supplied as data), the codec below newPropSet / buildProperty (encoder and decoder bodies belong to C01/C06/C08). The theorems carry explicit hypotheses (wf_total / wf_keys / json_ok / wf_paths) that a linked descriptor set does NOT all guarantee: split names of messages / enums / real oneofs distinct (violated by `message Bar { enum Kind }` + `message Bar_Kind`), JSON names of fields AND exposed oneofs distinct (protoc checks fields only: violated by `oneof foo_bar {expose}` + field `fooBar`); both violations are proved refutations and known findings",
     ],
     "assumptions": [
         "model/Reflect.v is the hand-written model of schema_from_proto.go, schema_cache.go, ClientProperties and newPropSet/buildProperty; tied to the code by the correspondence stream of this run (outcome class, whole reflected schema set, client-property flags, codec usability class per reflected type, cache-history classes) and by the regenerated switch-arm tables",
@@ -24,12 +24,12 @@ CONFIG = {
     ],
     "partial": [
         "C18_reflect_total / C18_cache_schema_total: totality for all descriptor sets satisfying wf_total (enums non-empty; enum split names apart from message / oneof split names)",
-        "C18_reflect_ok_guarantees (wf_desc) and C18_reflect_consistent (wf_paths = wf_desc + distinct field numbers per message): distinct keys, no placeholder, known scalar formats, closed references, every proto field path resolving to a field of the matching kind are theorems for every successful reflection; uniqueness of property names is proved only RELATIVE to the hypothesis that the JSON names of a message's fields and exposed oneofs are distinct (the reader introduces no duplicate), which real inputs can violate; codec usability (codec_classes) and termination of ClientProperties are executable predicates compared with the real reflector / codec on every case, not theorems",
+        "C18_reflect_ok_guarantees (wf_keys; names under json_ok) and C18_reflect_consistent (wf_paths = wf_keys + json_ok + distinct field numbers per message): distinct keys, no placeholder, known scalar formats, closed references, every proto field path resolving to a field of the matching kind are theorems for every successful reflection; uniqueness of property names is proved only RELATIVE to the hypothesis that the JSON names of a message's fields and exposed oneofs are distinct (the reader introduces no duplicate), which real inputs can violate; codec usability (codec_classes) and termination of ClientProperties are executable predicates compared with the real reflector / codec on every case, not theorems",
     ],
 }
 
 MANIFEST = {
     "text": "Theorems over a Gallina model of the proto-to-J5 schema reader (SchemaSetFromFiles / SchemaCache.Schema with placeholder recursion, all of buildScalarType / buildFromStringProto / wktSchema / buildEnum / messageProperties incl. exposed oneofs, checkFlattenCycle, ClientProperties, newPropSet / buildProperty), for all abstract proto3 descriptor sets with arbitrary annotation trees.",
-    "note": "Proved for all descriptor sets with non-empty enums and no enum/message split-name collision: the reader (incl. SchemaCache over any call history) never panics and never exhausts fuel |messages|+1. Also proved under wf_desc (hypotheses, not guarantees of a linked set: split names distinct; JSON names of fields and exposed oneofs distinct): a successful reflection has distinct keys, no unlinked placeholder, known scalar formats, closed references, and no duplicate property name is introduced by the reader. Also proved (wf_paths): every recorded proto field path resolves to a field of the matching kind (C18_reflect_consistent). Partial: codec usability is checked per case against the real code (model predicate), not proved for all inputs; four refutation witnesses are proved (split-name collision: panic; Struct: codec cannot build; flatten name clash; exposed-oneof / field JSON name clash) and listed as known findings. Entry point with dynamicpb extension values is outside the property (observation only). Trusted: Coq kernel; translator; harness and descriptor dump.",
+    "note": "Proved for all descriptor sets with non-empty enums and no enum/message split-name collision: the reader (incl. SchemaCache over any call history) never panics and never exhausts fuel |messages|+1. Also proved under wf_keys (a hypothesis, not a guarantee of a linked set: split names distinct): a successful reflection has distinct keys, no unlinked placeholder, known scalar formats, closed references; and under json_ok in addition (JSON names of fields and exposed oneofs distinct, again not guaranteed) no duplicate property name is introduced by the reader. Also proved (wf_paths): every recorded proto field path resolves to a field of the matching kind (C18_reflect_consistent). Partial: codec usability is checked per case against the real code (model predicate), not proved for all inputs; four refutation witnesses are proved (split-name collision: panic; Struct: codec cannot build; flatten name clash; exposed-oneof / field JSON name clash) and listed as known findings. Entry point with dynamicpb extension values is outside the property (observation only). Trusted: Coq kernel; translator; harness and descriptor dump.",
     "technique": "Rocq/Coq proof (invariant over the placeholder recursion) + regenerated switch-arm tables + in-Coq differential correspondence on generated descriptor sets in crash-isolated workers",
 }
